@@ -161,6 +161,7 @@ func run(c *props.Ctx) {
 	c.R.Floor("SHAPE-2", 8)
 	c.R.Floor("SYM-STRIDE", 3)
 	c.R.Floor("NRM-1", 3)
+	c.R.Floor("NRM-PATH", 2)
 	c.R.Floor("AXIS-1", 2)
 	c.R.Floor("HDR-FREE", 2)
 	c.R.Floor("ATTR-OPAQUE", 2)
@@ -1075,6 +1076,10 @@ type leafClass struct {
 	normCall ssa.Value
 	normCtx  *sx.Ctx
 	altered  string // first value-changing operation on the data path ("" = pure copy / conversion)
+	// per SSA value: in how many visited contexts it was classified as a
+	// length-normalising operation / as a scaling that is not one (NRM-PATH)
+	normAt  map[ssa.Value]int
+	normNot map[ssa.Value]int
 }
 
 // classifyGather classifies what one leaf of a record stored at tris[idx] is made of.
@@ -1316,6 +1321,7 @@ func gather(a *anchors, r *rep, fn, write *ssa.Function) {
 		verdict, msg := ob.Holds, ""
 		var pos string
 		var facts []string
+		var npAgg normPathAgg
 		for _, s := range sites {
 			if !sx.PathsOverlap(s.st.Ad.Path, lf.path) {
 				continue
@@ -1351,6 +1357,7 @@ func gather(a *anchors, r *rep, fn, write *ssa.Function) {
 				wantAttr := a.posAttr
 				wantCorners := map[int]bool{k: true}
 				if isNormal {
+					npAgg.add(a.normEveryPath(e, s.st.St.Val, rest, &lc), p)
 					wantAttr = a.nrmAttr
 					wantCorners = map[int]bool{1: true, 2: true, 3: true}
 				}
@@ -1409,6 +1416,9 @@ func gather(a *anchors, r *rep, fn, write *ssa.Function) {
 			pos = a.p.Pos(mk.Pos())
 		}
 		r.Add(verdict, rule, key, pos, msg, facts...)
+		if isNormal {
+			npAgg.report(r, key+"#every-path", "Triangle."+lf.name)
+		}
 	}
 	// NRM-1 summary: a normal is computed at all, and it is normalised
 	key := name + "#facet-normal"
@@ -1526,6 +1536,9 @@ func (a *anchors) classifyNormalisation(sl *sx.Slicer, lc *leafClass) {
 		_, ok := v.(*ssa.Const)
 		return ok
 	}
+	if lc.normAt == nil {
+		lc.normAt, lc.normNot = map[ssa.Value]int{}, map[ssa.Value]int{}
+	}
 	for _, vis := range sl.Visits {
 		if vis.Kind != sx.VValue {
 			continue
@@ -1535,8 +1548,12 @@ func (a *anchors) classifyNormalisation(sl *sx.Slicer, lc *leafClass) {
 			if b, ok := x.Type().Underlying().(*types.Basic); ok && b.Info()&types.IsFloat != 0 && x.Op.String() == "/" && !isConst(x.Y) {
 				if hasRoot(x.Y, vis.Ctx) {
 					lc.normed, lc.normHow = true, "division by a length (sqrt)"
-				} else if lc.normUnk == "" {
-					lc.normUnk = "a division by a non-constant that is not a length"
+					lc.normAt[vis.V]++
+				} else {
+					lc.normNot[vis.V]++
+					if lc.normUnk == "" {
+						lc.normUnk = "a division by a non-constant that is not a length"
+					}
 				}
 			}
 		case *ssa.Call:
@@ -1552,12 +1569,17 @@ func (a *anchors) classifyNormalisation(sl *sx.Slicer, lc *leafClass) {
 				}
 			case sx.VecMethod(o, "Normalized"):
 				lc.normed, lc.normHow = true, "vector3.Normalized"
+				lc.normAt[vis.V]++
 			case sx.VecMethod(o, "Scale") || sx.VecMethod(o, "DivByConstant") || sx.VecMethod(o, "MultByConstant"):
 				if len(x.Call.Args) == 2 && !isConst(x.Call.Args[1]) {
 					if hasRoot(x.Call.Args[1], vis.Ctx) {
 						lc.normed, lc.normHow = true, o.Name()+" by a length"
-					} else if lc.normUnk == "" {
-						lc.normUnk = o.Name() + " by a non-constant that is not a length"
+						lc.normAt[vis.V]++
+					} else {
+						lc.normNot[vis.V]++
+						if lc.normUnk == "" {
+							lc.normUnk = o.Name() + " by a non-constant that is not a length"
+						}
 					}
 				}
 			case isVectorPkgObj(o):
